@@ -362,6 +362,22 @@ class FnTranslator:
             return "(mrow N %s %s)" % (arr, i), V
         raise Unsupported("subscript of " + str(t))
 
+    def vec_mask(self, n, env):
+        """vector comparison `v > c` (one operator, vector against scalar or vector) -> (coq list bool, 'VB')"""
+        if not (isinstance(n, ast.Compare) and len(n.ops) == 1):
+            raise Unsupported("mask expression")
+        a, ta = self.expr(n.left, env)
+        b, tb = self.expr(n.comparators[0], env)
+        tpl = {ast.Lt: "ltb N", ast.LtE: "leb N", ast.Gt: "ngt N", ast.GtE: "nge N", ast.Eq: "eqb N", ast.NotEq: "nne N"}
+        if type(n.ops[0]) not in tpl:
+            raise Unsupported("mask operator")
+        f = tpl[type(n.ops[0])]
+        if ta == V and tb in (F, I, B):
+            return "(map (fun a_ => %s a_ %s) %s)" % (f, self.coerce(b, tb, F), a), "VB"
+        if ta == V and tb == V:
+            return "(map (fun ab_ => %s (fst ab_) (snd ab_)) (combine %s %s))" % (f, a, b), "VB"
+        raise Unsupported("mask of non-vector")
+
     def shape_arg(self, n, env):
         """argument of np.zeros / np.empty: x.shape, x.shape[0], an int expression -> (kind, coq)"""
         if isinstance(n, ast.Attribute) and n.attr == "shape":
@@ -375,8 +391,9 @@ class FnTranslator:
 
     def call(self, n, env):
         name = dotted(n.func)
-        if name is None:
+        if name is None and not isinstance(n.func, ast.Attribute):
             raise Unsupported("call of non-name")
+        name = name or "<method>"
         kw = {k.arg: k.value for k in n.keywords}
         if name in ("np.zeros", "np.empty", "np.zeros_like", "np.empty_like"):
             if name.endswith("_like"):
@@ -405,6 +422,23 @@ class FnTranslator:
                 e, t = self.expr(el, env)
                 parts.append(self.coerce(e, t, F))
             return "[" + "; ".join(parts) + "]", V
+        if name in ("float", "np.float64", "np.float32") and len(n.args) == 1 and not kw:
+            a, ta = self.expr(n.args[0], env)
+            if ta == V:
+                return a, V          # a cast of a float array (rounding to float32 is not modelled)
+            return self.coerce(a, ta, F), F
+        if name == "np.ones" and len(n.args) >= 1:
+            dt = kw.get("dtype")
+            if dt is not None and dotted(dt) not in ("np.float32", "np.float64", "float"):
+                raise Unsupported("np.ones dtype")
+            kind, sh = self.shape_arg(n.args[0], env)
+            if kind != V:
+                raise Unsupported("np.ones of a matrix shape")
+            return "(repeat (one N) (Z.to_nat %s))" % sh, V
+        if isinstance(n.func, ast.Attribute) and n.func.attr in ("max", "min", "sum") and not n.args and not kw:
+            base, bt = self.expr(n.func.value, env)
+            if bt == V:
+                return "(%s N %s)" % ({"max": "vmax_py", "min": "vmin_py", "sum": "vsum_py"}[n.func.attr], base), F
         if name in ("max", "min") and len(n.args) == 2:
             a, ta = self.expr(n.args[0], env)
             b, tb = self.expr(n.args[1], env)
@@ -604,6 +638,25 @@ class FnTranslator:
                     raise Unsupported("tuple assignment changes a type")
                 env2[x.id] = tx
             return "let '(%s) := %s in\n" % (", ".join(self.var(x.id) for x in target.elts), e) + self.block(rest, env2, k)
+        if isinstance(target, ast.Subscript) and isinstance(target.value, ast.Name) and isinstance(target.slice, ast.Compare):
+            # boolean-mask store X[mask] = E: positions where the mask holds receive the value of E computed elementwise
+            arr = target.value.id
+            if env.get(arr) != V:
+                raise Unsupported("mask store into non-vector")
+            mask_src = ast.dump(target.slice)
+            m, mt = self.vec_mask(target.slice, env)
+
+            class Strip(ast.NodeTransformer):
+                def visit_Subscript(self2, node):
+                    if isinstance(node.slice, ast.Compare) and ast.dump(node.slice) == mask_src:
+                        return self2.visit(node.value)
+                    if isinstance(node.slice, ast.Compare):
+                        raise Unsupported("different masks in one mask store")
+                    return self2.generic_visit(node)
+            e, t = self.expr(Strip().visit(ast.parse(ast.unparse(value), mode="eval").body), env)
+            if t != V:
+                e = "(repeat %s (length %s))" % (self.coerce(e, t, F), self.var(arr))
+            return "let %s := (vselect N %s %s %s) in\n" % (self.var(arr), m, e, self.var(arr)) + self.block(rest, env, k)
         if isinstance(target, ast.Subscript) and isinstance(target.value, ast.Name):
             arr = target.value.id
             if arr not in env:
